@@ -11,7 +11,7 @@ PROPS = {
     'C10': {
         'level': 'proof',
         'verus': ['c10-view'],
-        'kani': ['c10'],
+        'kani': ['c10', 'driver'],
         'explanation': 'Verus proves the trait-level view contract for Slice/Uninit/ext methods for all nestings by induction '
                        'over trait impls; Kani checks the same contract pointer-level on the real root types (bounded) and '
                        'discharges the hand-off contract of IoBufExt::slice completely.',
